@@ -172,30 +172,6 @@ class Path:
 # z3 helpers
 
 
-class CharsIn:
-    """The truth values of ``c in chars`` (or ``not in``) for the characters
-    c of a symbolic string, as a whole."""
-
-    def __init__(self, s, chars, negated):
-        self.s, self.chars, self.negated = s, chars, negated
-
-    def _class(self):
-        rs = [z3.Re(z3.StringVal(c)) for c in self.chars]
-        r = rs[0] if len(rs) == 1 else z3.Union(*rs) if rs else None
-        allc = z3.AllChar(z3.ReSort(z3.StringSort()))
-        if r is None:
-            return z3.Diff(allc, allc) if not self.negated else allc
-        return z3.Diff(allc, r) if self.negated else r
-
-    def all(self):
-        return mk_bool(z3.InRe(self.s.z, z3.Star(self._class())))
-
-    def any(self):
-        allc = z3.AllChar(z3.ReSort(z3.StringSort()))
-        return mk_bool(z3.InRe(self.s.z, z3.Concat(
-            z3.Star(allc), self._class(), z3.Star(allc))))
-
-
 class Abstract:
     """Base class of abstract model values (contracts/worklist, textmodel):
     an operation the model does not define is a gap of the model, never a
@@ -228,6 +204,30 @@ class Abstract:
         if name.startswith('__') and name.endswith('__'):
             raise AttributeError(name)
         self._gap(f'attribute {name!r}')
+
+
+class CharsIn(Abstract):
+    """The truth values of ``c in chars`` (or ``not in``) for the characters
+    c of a symbolic string, as a whole."""
+
+    def __init__(self, s, chars, negated):
+        self.s, self.chars, self.negated = s, chars, negated
+
+    def _class(self):
+        rs = [z3.Re(z3.StringVal(c)) for c in self.chars]
+        r = rs[0] if len(rs) == 1 else z3.Union(*rs) if rs else None
+        allc = z3.AllChar(z3.ReSort(z3.StringSort()))
+        if r is None:
+            return z3.Diff(allc, allc) if not self.negated else allc
+        return z3.Diff(allc, r) if self.negated else r
+
+    def all(self):
+        return mk_bool(z3.InRe(self.s.z, z3.Star(self._class())))
+
+    def any(self):
+        allc = z3.AllChar(z3.ReSort(z3.StringSort()))
+        return mk_bool(z3.InRe(self.s.z, z3.Concat(
+            z3.Star(allc), self._class(), z3.Star(allc))))
 
 
 def has_quantifier(z, _seen=None):
